@@ -294,6 +294,71 @@ func c05Nested() vs.Verdict {
 	return f.verdict(fmt.Sprintf("closer=%s %s", closer, callRes))
 }
 
+// c05SubscribeVsClose: on a 2026-07-28 session every ClientSession.Subscribe opens a
+// subscriptions/listen call that stays in flight until it is cancelled.  One thread subscribes
+// while another closes the session: whichever comes first, Close and both Waits return and the
+// server forgets the session and its subscriptions.
+func c05SubscribeVsClose() vs.Verdict {
+	f := &e1Fail{prefix: "c05b subscribe-vs-close"}
+	ctx := context.Background()
+	vs.Quiet(true)
+	s := NewServer(&Implementation{Name: "srv", Version: "1"}, &ServerOptions{Logger: quietLogger,
+		SubscribeHandler:   func(context.Context, *SubscribeRequest) error { return nil },
+		UnsubscribeHandler: func(context.Context, *UnsubscribeRequest) error { return nil },
+	})
+	const uri = "file:///r1"
+	s.AddResource(&Resource{URI: uri, Name: "r1"}, func(context.Context, *ReadResourceRequest) (*ReadResourceResult, error) {
+		return &ReadResourceResult{Contents: []*ResourceContents{{URI: uri, Text: "x"}}}, nil
+	})
+	c := NewClient(&Implementation{Name: "cli", Version: "1"}, &ClientOptions{Logger: quietLogger,
+		ResourceUpdatedHandler: func(context.Context, *ResourceUpdatedNotificationRequest) {}})
+	ct, st := NewInMemoryTransports()
+	ss, err := s.Connect(ctx, st, nil)
+	if err != nil {
+		return vs.Verdict{Bad: "server connect: " + err.Error(), Sig: "c05b connect-failed"}
+	}
+	cs, err := c.Connect(ctx, ct, &ClientSessionOptions{ProtocolVersion: "2026-07-28"})
+	if err != nil {
+		return vs.Verdict{Bad: "client connect: " + err.Error(), Sig: "c05b connect-failed"}
+	}
+	vs.WaitIdle()
+	vs.Quiet(false)
+	done := make(chan string, 8)
+	subRes := ""
+	vs.Go(func() {
+		if err := cs.Subscribe(ctx, &SubscribeParams{URI: uri}); err != nil {
+			done <- "subscribe:err"
+		} else {
+			done <- "subscribe:ok"
+		}
+	})
+	vs.Go(func() {
+		vs.Point()
+		cs.Close()
+		done <- "cclose"
+	})
+	vs.Go(func() { ss.Wait(); done <- "swait" })
+	vs.Go(func() { cs.Wait(); done <- "cwait" })
+	for i := 0; i < 4; i++ {
+		if r := <-done; strings.HasPrefix(r, "subscribe:") {
+			subRes = r
+		}
+	}
+	cs.Close()
+	ss.Close()
+	vs.WaitIdle()
+	if left := slices.Collect(s.Sessions()); len(left) != 0 {
+		f.failf("server-session-not-removed", "after shutdown the server still lists %d session(s)", len(left))
+	}
+	s.mu.Lock()
+	subs := len(s.resourceSubscriptions[uri])
+	s.mu.Unlock()
+	if subs != 0 {
+		f.failf("subscriptions-not-forgotten", "after shutdown the server still holds %d subscription(s) to %s", subs, uri)
+	}
+	return f.verdict(subRes)
+}
+
 // c05StreamableClose: a streamable HTTP session is closed (DELETE or ServerSession.Close) while a
 // POST carrying more calls than the session's incoming queue holds is being handed to it.  Every
 // HTTP exchange must end, Close must return, and nothing may be left running.
@@ -415,6 +480,7 @@ func TestVerifC05(t *testing.T) {
 		vs.E1(t, "b/sessions-client-writes-fail", b, vs.Options{}, func() vs.Verdict { return c05Sessions("client") }),
 		vs.E1(t, "b/sessions-server-writes-fail", b, vs.Options{}, func() vs.Verdict { return c05Sessions("server") }),
 		vs.E1(t, "b/nested-request-in-flight", env.Pick(1, 2), vs.Options{}, func() vs.Verdict { return c05Nested() }),
+		vs.E1(t, "b/subscribe-vs-close/2026-07-28", env.Pick(2, 3), vs.Options{}, func() vs.Verdict { return c05SubscribeVsClose() }),
 		vs.E1(t, "b/streamable-close-vs-posts", env.Pick(1, 2), vs.Options{}, func() vs.Verdict { return c05StreamableClose() }),
 	}
 	env.Run(scs)
